@@ -33,6 +33,11 @@ certainly meaning-preserving.  The checks must stay quiet on the result
   retifexp     if c: return X else: return Y  ->  return X if c else Y
   whiletrue    while c: B  ->  while True: if not c: break; B
   inlinetemp   t = <expr>; <statement using t once>  ->  expression in place
+  lencmp       len(x) > 0 -> len(x) >= 1, len(x) == 0 -> len(x) < 1, ...
+  tuplesplit   a, b = e1, e2  ->  a = e1; b = e2
+  noop         assert True at the start of every function
+  slice0       x[:n]  ->  x[0:n]
+  augjoin      n = n + 1  ->  n += 1
 """
 import ast
 import os
@@ -71,7 +76,8 @@ class Commute(ast.NodeTransformer):
 
 class FlipCmp(ast.NodeTransformer):
     FLIP = {ast.Lt: ast.Gt, ast.Gt: ast.Lt, ast.LtE: ast.GtE,
-            ast.GtE: ast.LtE, ast.Eq: ast.Eq, ast.NotEq: ast.NotEq}
+            ast.GtE: ast.LtE, ast.Eq: ast.Eq, ast.NotEq: ast.NotEq,
+            ast.Is: ast.Is, ast.IsNot: ast.IsNot}
 
     def visit_Compare(self, node):
         self.generic_visit(node)
@@ -577,6 +583,110 @@ class InlineTemp(ast.NodeTransformer):
         return node
 
 
+class LenCmp(ast.NodeTransformer):
+    """len(x) > 0 -> len(x) >= 1 ; len(x) == 0 -> len(x) < 1 ;
+    len(x) != 0 -> len(x) > 0"""
+
+    def visit_Compare(self, node):
+        self.generic_visit(node)
+        if len(node.ops) == 1 and isinstance(node.left, ast.Call) and \
+                isinstance(node.left.func, ast.Name) and \
+                node.left.func.id == "len" and \
+                isinstance(node.comparators[0], ast.Constant) and \
+                node.comparators[0].value == 0:
+            op = node.ops[0]
+            if isinstance(op, ast.Gt):
+                return ast.Compare(left=node.left, ops=[ast.GtE()],
+                                   comparators=[ast.Constant(value=1)])
+            if isinstance(op, ast.Eq):
+                return ast.Compare(left=node.left, ops=[ast.Lt()],
+                                   comparators=[ast.Constant(value=1)])
+            if isinstance(op, ast.NotEq):
+                return ast.Compare(left=node.left, ops=[ast.Gt()],
+                                   comparators=[ast.Constant(value=0)])
+        return node
+
+
+class TupleSplit(ast.NodeTransformer):
+    """a, b = e1, e2  ->  a = e1; b = e2   (names on the left, call-free
+    right sides that do not read the names assigned before them)"""
+
+    def _do(self, body):
+        out = []
+        for s_ in body:
+            if isinstance(s_, ast.Assign) and len(s_.targets) == 1 and \
+                    isinstance(s_.targets[0], ast.Tuple) and \
+                    isinstance(s_.value, ast.Tuple) and \
+                    len(s_.targets[0].elts) == len(s_.value.elts) and \
+                    all(isinstance(t, ast.Name)
+                        for t in s_.targets[0].elts) and \
+                    not has_call(s_.value):
+                names = [t.id for t in s_.targets[0].elts]
+                ok = len(set(names)) == len(names) and all(
+                    not (set(names[:i]) & names_in(v))
+                    for i, v in enumerate(s_.value.elts))
+                if ok:
+                    for t, v in zip(s_.targets[0].elts, s_.value.elts):
+                        out.append(ast.Assign(targets=[ast.Name(
+                            id=t.id, ctx=ast.Store())], value=v, lineno=0))
+                    continue
+            out.append(s_)
+        return out
+
+    def generic_visit(self, node):
+        super(TupleSplit, self).generic_visit(node)
+        if isinstance(node, (ast.ClassDef, ast.Module)):
+            return node
+        for f in ("body", "orelse", "finalbody"):
+            b = getattr(node, f, None)
+            if isinstance(b, list) and b and isinstance(b[0], ast.stmt):
+                setattr(node, f, self._do(b))
+        return node
+
+
+class Noop(ast.NodeTransformer):
+    """``assert True`` at the start of every function (after the docstring)
+    and before every return of a value"""
+
+    def visit_FunctionDef(self, node):
+        self.generic_visit(node)
+        i = 1 if node.body and isinstance(node.body[0], ast.Expr) and \
+            isinstance(node.body[0].value, ast.Constant) and \
+            isinstance(node.body[0].value.value, str) else 0
+        node.body.insert(i, ast.Assert(test=ast.Constant(value=True),
+                                       msg=None))
+        return node
+
+
+class Slice0(ast.NodeTransformer):
+    """x[:n] -> x[0:n]   (explicit zero lower bound, no step)"""
+
+    def visit_Slice(self, node):
+        self.generic_visit(node)
+        if node.lower is None and node.upper is not None and \
+                node.step is None:
+            node.lower = ast.Constant(value=0)
+        return node
+
+
+class AugJoin(ast.NodeTransformer):
+    """n = n + 1 / n = n - 1 (integer constant)  ->  n += 1"""
+
+    def visit_Assign(self, node):
+        if len(node.targets) == 1 and isinstance(node.targets[0], ast.Name) \
+                and isinstance(node.value, ast.BinOp) and \
+                isinstance(node.value.op, (ast.Add, ast.Sub)) and \
+                isinstance(node.value.left, ast.Name) and \
+                node.value.left.id == node.targets[0].id and \
+                isinstance(node.value.right, ast.Constant) and \
+                isinstance(node.value.right.value, int) and \
+                not isinstance(node.value.right.value, bool):
+            return ast.AugAssign(target=ast.Name(id=node.targets[0].id,
+                                                 ctx=ast.Store()),
+                                 op=node.value.op, value=node.value.right)
+        return node
+
+
 CLASSES = {"reformat": Reformat, "rename": Rename, "commute": Commute,
            "flipcmp": FlipCmp, "noteq": NotEq, "literals": Literals,
            "items": Items, "ifexp": IfExp, "unifexp": UnIfExp,
@@ -585,7 +695,9 @@ CLASSES = {"reformat": Reformat, "rename": Rename, "commute": Commute,
            "demorgan": DeMorgan, "ifswap": IfSwap, "elifnest": ElifNest,
            "comp2loop": Comp2Loop, "kwswap": KwSwap, "range0": Range0,
            "retifexp": RetIfExp, "whiletrue": WhileTrue,
-           "inlinetemp": InlineTemp}
+           "inlinetemp": InlineTemp, "lencmp": LenCmp,
+           "tuplesplit": TupleSplit, "noop": Noop, "slice0": Slice0,
+           "augjoin": AugJoin}
 
 
 def main():
